@@ -282,6 +282,8 @@ def make_heap(P, tier):
 #include <fcppt/container/grid/map.hpp>
 #include <fcppt/container/grid/resize.hpp>
 #include <fcppt/container/grid/fill.hpp>
+#include <fcppt/container/grid/at_optional.hpp>
+#include <fcppt/container/grid/in_range.hpp>
 #include <fcppt/math/vector/at.hpp>
 namespace g = fcppt::container::grid;
 using grid2 = g::object<int, 2>;
@@ -293,6 +295,7 @@ template <typename G> static void put(G const &r, std::size_t *ow, std::size_t *
 #define APPLY(W1, H1, W2, H2) extern "C" void vf_grid_apply_##W1##H1##_##W2##H2(CA, CB, OUT){ put(g::apply([](int const a, int const b){ return static_cast<unsigned>(a) * 7U + static_cast<unsigned>(b) * 13U + 1U; }, mk(W1, H1, a0, a1, a2, a3), mk(W2, H2, b0, b1, b2, b3)), ow, oh, o); }
 #define MAP(W1, H1) extern "C" void vf_grid_map_##W1##H1(CA, OUT){ put(g::map(mk(W1, H1, a0, a1, a2, a3), [](int const a){ return static_cast<unsigned>(a) * 7U + 1U; }), ow, oh, o); }
 #define RESIZE(W1, H1, W2, H2) extern "C" void vf_grid_resize_##W1##H1##_##W2##H2(CA, OUT){ put(g::resize(mk(W1, H1, a0, a1, a2, a3), grid2::dim{W2, H2}, [](grid2::pos const p){ return static_cast<int>(1000U + p.x() + 10U * p.y()); }), ow, oh, o); }
+#define ATOPT(W1, H1) extern "C" bool vf_grid_at_optional_##W1##H1(CA, std::size_t x, std::size_t y, int *val, bool *inr){ grid2 const r{mk(W1, H1, a0, a1, a2, a3)}; auto const e = g::at_optional(r, grid2::pos{x, y}); *inr = g::in_range(r, grid2::pos{x, y}); if (e.has_value()) *val = e.get_unsafe().get(); return e.has_value(); }
 #define FILL(W1, H1) extern "C" void vf_grid_fill_##W1##H1(CA, OUT){ grid2 r{mk(W1, H1, a0, a1, a2, a3)}; g::fill(r, [](grid2::pos const p){ return static_cast<int>(100U + p.x() + 10U * p.y()); }); put(r, ow, oh, o); }
 """
     FR = '__CPROVER_is_fresh(ow, 8) && __CPROVER_is_fresh(oh, 8) && __CPROVER_is_fresh(o, 16)'
@@ -328,6 +331,13 @@ template <typename G> static void put(G const &r, std::size_t *ow, std::size_t *
         shim += 'FILL(%d, %d)\n' % (w1, h1)
         spec += 'function %s\n  __CPROVER_requires(%s)\n  __CPROVER_assigns(%s)\n  __CPROVER_ensures(*ow == %d && *oh == %d && %s)\n' % (f, FR, OW, w1, h1, ' && '.join('o[%d] == %du' % (x + y * w1, 100 + x + 10 * y) for y in range(h1) for x in range(w1)))
         jobs.append((f, 'fill on a %dx%d grid: every cell is f(its position)' % (w1, h1)))
+    for (w1, h1) in ((2, 2), (1, 2)):
+        f = 'vf_grid_at_optional_%d%d' % (w1, h1)
+        shim += 'ATOPT(%d, %d)\n' % (w1, h1)
+        inr = '(x < %d && y < %d)' % (w1, h1)
+        cellv = ' && '.join('VF_IMP(x == %d && y == %d, *val == %s)' % (x, y, AA[x + y * w1]) for y in range(h1) for x in range(w1))
+        spec += 'function %s\n  __CPROVER_requires(__CPROVER_is_fresh(val, 4) && __CPROVER_is_fresh(inr, 1))\n  __CPROVER_assigns(*val, *inr)\n  __CPROVER_ensures(__CPROVER_return_value == %s && *inr == %s && %s)\n' % (f, inr, inr, cellv)
+        jobs.append((f, 'at_optional on a %dx%d grid: an element exactly for in-range positions (every position value), and it is the cell at that position; in_range agrees' % (w1, h1)))
     P.generated['heap.cpp'] = shim
     P.generated['heap.spec'] = spec
     u = P.unit('heap', 'heap.cpp', specs=['heap.spec'], inline=True)
